@@ -859,8 +859,12 @@ impl WorldA {
                 let n = self.nchan(i, d);
                 if n > 0 {
                     let ch = op.c as usize % n;
-                    let count = 40 + (op.d % 61) as usize;
-                    let len = [1usize, 300, 1200, 1201, 1500, 2400, 2401][((op.d / 61) % 7) as usize];
+                    // (from 427 on: several hundred empty or one-byte messages, more than one packet's count field may hold)
+                    let (count, len) = if op.d >= 427 {
+                        (260 + ((op.d % 61) * 5) as usize, ((op.d / 61) % 2) as usize)
+                    } else {
+                        (40 + (op.d % 61) as usize, [1usize, 300, 1200, 1201, 1500, 2400, 2401][((op.d / 61) % 7) as usize])
+                    };
                     obs.count("op.submit_burst");
                     for _ in 0..count {
                         self.submit(i, d, ch, len, None, obs);
